@@ -151,7 +151,7 @@ def run():
     cfg = os.path.join(wd, "mc.cfg")
     with open(cfg, "w") as f:
         f.write("SPECIFICATION Spec\nCONSTANT MaxCalls = 4\nVIEW hview\nINVARIANT LookAheadIsInvisible\nINVARIANT MessagesOnce\nINVARIANT EvalLeavesTheStoryAlone\nINVARIANT SwitchAwayAndBack\n"
-                "INVARIANT OthersUntouched\nINVARIANT SaveLoadIdentity\nINVARIANT ResetIsInitial\nINVARIANT RefusedIsNoOp\nCHECK_DEADLOCK FALSE\n")
+                "INVARIANT OthersUntouched\nINVARIANT SaveLoadIdentity\nINVARIANT ResetIsInitial\nINVARIANT RefusedIsNoOp\nINVARIANT ObserversMatchPolling\nCHECK_DEADLOCK FALSE\n")
 
     def mc(specdir):
         bad_inv = set()
@@ -181,6 +181,9 @@ def run():
          "[m |-> m1, snap |-> NoSnap, done |-> TRUE,", "MessagesOnce"),
         ("InkHost.tla", "after a function evaluated by the host the story's output is not put back",
          "[h EXCEPT !.m = [m EXCEPT !.out = saved.out, !.st = saved.st,", "[h EXCEPT !.m = [m EXCEPT !.st = saved.st,", "EvalLeavesTheStoryAlone"),
+        ("InkLook.tla", "a look-ahead that is kept forgets which globals it changed (the observers would not be told)",
+         'ELSE IF ch = "removed" THEN [m |-> m2, snap |-> NoSnap, done |-> FALSE, log |-> log]',
+         'ELSE IF ch = "removed" THEN [m |-> [m2 EXCEPT !.dirty = e.snap.dirty], snap |-> NoSnap, done |-> FALSE, log |-> log]', "ObserversMatchPolling"),
         ("InkHost.tla", "reset forgets the named flows' removal", "Reset(h) == Ok([h EXCEPT !.m = S!Start, !.cur = DefaultFlow, !.others = <<>>])",
          "Reset(h) == Ok([h EXCEPT !.m = S!Start, !.cur = DefaultFlow])", "ResetIsInitial"),
     ]:
